@@ -36,8 +36,8 @@ def F(name, seconds):
 
 PROPS = {
     "C01": dict(pkg="c01", level="exploration",
-                quick=[R(checks=1200)],
-                thorough=[R(checks=6000, shards=16, timeout=1500)]),
+                quick=[R(checks=1200), R(checks=300, shards=2, env={"VERIF_C01_LOOP": "1"})],
+                thorough=[R(checks=6000, shards=16, timeout=1500), R(checks=4000, shards=8, timeout=1500, env={"VERIF_C01_LOOP": "1"})]),
     "C02": dict(pkg="c02", level="exploration",
                 quick=[R(checks=1200)],
                 thorough=[R(checks=6000, shards=16, timeout=1500)]),
